@@ -492,3 +492,47 @@ pub open spec fn blind_sign_rel<CS: BbsCiphersuite>(sig: BBSplusSignature, sk: S
     &&& sig.e == fbs_e::<CS>(sk, bp, CS::API_ID_BLIND@)
     &&& sig.A == g1_mul(bp, s_inv(s_add(sk, sig.e)))
 }
+
+pub open spec fn opt_usize(o: Option<usize>) -> usize {
+    match o { Some(v) => v, None => 0 }
+}
+
+/// blind index translation: signer-message indexes as they are, committed-message index j at j + L + 1
+pub open spec fn blind_indexes(di: Seq<usize>, dj: Seq<usize>, l: int) -> Seq<usize> {
+    Seq::new(di.len() + dj.len(), |k: int| if k < di.len() { di[k] } else { (dj[k - di.len()] + l + 1) as usize })
+}
+
+pub proof fn lemma_blind_indexes_sorted(di: Seq<usize>, dj: Seq<usize>, l: int)
+    requires
+        strictly_sorted(di), strictly_sorted(dj), 0 <= l,
+        forall|k: int| 0 <= k < di.len() ==> di[k] < l,
+        forall|k: int| 0 <= k < dj.len() ==> dj[k] + l + 1 <= usize::MAX,
+    ensures strictly_sorted(blind_indexes(di, dj, l)),
+{
+}
+
+pub open spec fn blind_proof_gen_ok<CS: BbsCiphersuite>(sig: Seq<u8>, l: int, m: int, di: Seq<usize>, dj: Seq<usize>) -> bool {
+    &&& sig_octets_valid(sig)
+    &&& di.len() <= l && (forall|k: int| 0 <= k < di.len() ==> di[k] < l)
+    &&& dj.len() <= m && (forall|k: int| 0 <= k < dj.len() ==> dj[k] < m)
+}
+
+/// BlindProofGen = CoreProofGen over (msgs, blind, committed) / generators(L+1) ++ blind generators(M+1) with translated indexes
+pub open spec fn blind_proof_gen_rel<CS: BbsCiphersuite>(p: BBSplusPoKSignature, pk: G2Projective, sig: Seq<u8>, header: Seq<u8>, ph: Seq<u8>,
+    msgs: Seq<Vec<u8>>, cm: Seq<Vec<u8>>, di: Seq<usize>, dj: Seq<usize>, blind: Scalar, rs: Seq<Scalar>) -> bool {
+    core_proof_gen_rel::<CS>(p, pk, sig_of_octets(sig), p1_spec::<CS>(), pp_gens::<CS>((msgs.len() + 1) as nat, (cm.len() + 1) as nat, CS::API_ID_BLIND@),
+        pp_scalars::<CS>(msgs, cm, Some(blind), CS::API_ID_BLIND@), blind_indexes(di, dj, msgs.len() as int), header, ph, CS::API_ID_BLIND@, rs)
+}
+
+/// BlindProofVerify: M = R1 + R2 + U - 1 - L (an L that does not fit is refused), indexes in range, then CoreProofVerify
+pub open spec fn blind_proof_verify_spec<CS: BbsCiphersuite>(pk: G2Projective, p: BBSplusPoKSignature, header: Seq<u8>, ph: Seq<u8>, l: usize,
+    dmsgs: Seq<Vec<u8>>, dcm: Seq<Vec<u8>>, di: Seq<usize>, dj: Seq<usize>) -> bool {
+    let n = di.len() + dj.len() + p.m_cap@.len();
+    let m = n - 1 - l;
+    &&& n >= 1 && n - 1 >= l
+    &&& forall|k: int| 0 <= k < di.len() ==> di[k] < l
+    &&& forall|k: int| 0 <= k < dj.len() ==> dj[k] < m
+    &&& pp_ok::<CS>(dmsgs.len() as int, dcm.len() as int, CS::API_ID_BLIND@)
+    &&& proof_verify_spec::<CS>(pk, p, p1_spec::<CS>(), pp_gens::<CS>((l + 1) as nat, (m + 1) as nat, CS::API_ID_BLIND@), header, ph,
+            pp_scalars::<CS>(dmsgs, dcm, None, CS::API_ID_BLIND@), blind_indexes(di, dj, l as int), CS::API_ID_BLIND@)
+}
